@@ -24,8 +24,8 @@ ANCHOR_FILES = ["src/ropt/config/utils.py", "src/ropt/config/validated_types.py"
 RULE = ("case = one generated dictionary (valid, or valid + one invalidating mutation); non-trivial if validation was attempted and judged; distinct key = case index; "
         "monitor_counters: attributes and arrays attacked, fields compared after re-validation")
 ASSUMPTIONS = ["filter/estimator/sampler index maps are generated at full length (their broadcasting is not part of the statement)"]
-REQUIRED = {"quick": {"attrs_attacked": 20000, "arrays_attacked": 9000, "revalidate_fields_compared": 20000, "rejections_checked": 217, "canonical_checked": 682, "plain_settings_compared": 800, "section_objects_compared_after_use": 3500, "with_nearly_normalized_weights": 100, "with_relative_perturbations": 144, "with_transform_context": 200, "with_negative_objective_weight": 100, "section_objects_reused": 600, "__nontrivial__": 900},
-            "thorough": {"attrs_attacked": 500000, "arrays_attacked": 241877, "revalidate_fields_compared": 500000, "rejections_checked": 5977, "canonical_checked": 18022, "plain_settings_compared": 20000, "section_objects_compared_after_use": 90000, "with_nearly_normalized_weights": 2500, "with_relative_perturbations": 4147, "with_transform_context": 5000, "section_objects_reused": 15000, "__nontrivial__": 24000}}
+REQUIRED = {"quick": {"attrs_attacked": 20000, "arrays_attacked": 9000, "revalidate_fields_compared": 20000, "rejections_checked": 217, "canonical_checked": 682, "plain_settings_compared": 800, "with_negligible_weights": 50, "with_mask_given_as_integers": 40, "section_objects_compared_after_use": 3500, "with_nearly_normalized_weights": 100, "with_relative_perturbations": 144, "with_transform_context": 200, "with_negative_objective_weight": 100, "section_objects_reused": 600, "__nontrivial__": 900},
+            "thorough": {"attrs_attacked": 500000, "arrays_attacked": 241877, "revalidate_fields_compared": 500000, "rejections_checked": 5977, "canonical_checked": 18022, "plain_settings_compared": 20000, "with_negligible_weights": 1500, "with_mask_given_as_integers": 1200, "section_objects_compared_after_use": 90000, "with_nearly_normalized_weights": 2500, "with_relative_perturbations": 4147, "with_transform_context": 5000, "section_objects_reused": 15000, "__nontrivial__": 24000}}
 N = {"quick": 1500, "thorough": 40000}
 
 
@@ -78,6 +78,20 @@ def gen_dict(rng):
             if ow.sum() == 1.0:
                 ow[int(np.argmax(ow))] -= 3e-6
         meta["nearly_normalized_weights"] = True
+    elif rng.random() < 0.15:
+        # a weight that is negligible but not zero (a realization / objective that is kept evaluated without counting), or
+        # weights many orders of magnitude apart: ratios are kept, nothing non-zero becomes zero
+        if R > 1:
+            k = int(np.argmin(np.where(rw > 0, rw, np.inf))) if np.count_nonzero(rw > 0) > 1 else None
+            if k is not None:
+                rw[k] *= float(rng.choice([1e-17, 1e-20, 1e-13]))
+        if no > 1 and np.all(ow > 0):
+            ow[int(rng.integers(no))] *= float(rng.choice([1e-17, 1e-14]))
+        meta["negligible_weights"] = True
+    if var.get("mask") is not None and var["mask"] is not True and rng.random() < 0.3:
+        # flags written as 0/1 integers are flags
+        var["mask"] = [int(b) for b in var["mask"]]
+        meta["mask_as_integers"] = True
     cfg = {"variables": var,
            "realizations": {"weights": rw.tolist()},
            "objectives": {"weights": ow.tolist()}}
@@ -322,6 +336,12 @@ def run_case(case, obs):
     for name, got, w in (("realizations.weights", cfg.realizations.weights, rw), ("objectives.weights", cfg.objectives.weights, ow)):
         if got.shape != w.shape or abs(got.sum() - 1) > 1e-12 or not np.allclose(got, w / w.sum(), rtol=1e-12, atol=0):
             obs.violation("weights_not_normalized", field=name, got=got, input=w)
+    if meta.get("negligible_weights"):
+        obs.count("with_negligible_weights")
+    if meta.get("mask_as_integers"):
+        obs.count("with_mask_given_as_integers")
+    if cfg.variables.mask is not None and cfg.variables.mask.dtype != np.bool_:
+        obs.violation("mask_is_not_boolean", dtype=str(cfg.variables.mask.dtype), input=d["variables"].get("mask"))
     for name, arr in (("variables.lower_bounds", cfg.variables.lower_bounds), ("variables.upper_bounds", cfg.variables.upper_bounds),
                       ("variables.types", cfg.variables.types), ("variables.mask", cfg.variables.mask),
                       ("gradient.perturbation_magnitudes", cfg.gradient.perturbation_magnitudes),
